@@ -65,18 +65,33 @@ def record_sizes(infos, path_of):
     return sizes
 
 
-def one_file(sd, root, step):
-    """write a real file with 1..4 records, cut it at every step-th offset (all if step=1)"""
+def pickle_bounds(path):
+    """end offset of every pickle in the file, whatever the record layout is"""
+    out = []
+    with open(path, 'rb') as f:
+        while True:
+            try:
+                pickle.load(f)
+            except EOFError:
+                break
+            out.append(f.tell())
+    return out
+
+
+def one_file(sd, root, step, big=None):
+    """write a real file with 1..4 records, cut it at every step-th offset (all if step=1).
+    big = number of fits of a LARGE first record: the file is then cut at ~300 spread offsets, at every pickle boundary +-1
+    and at every record boundary +-1 instead of everywhere"""
     from sedfitter.fit_info import FitInfoFile
     rng = random.Random(sd)
     nb, nm, K, grid, lo, hi = rand_world(rng, False)
     w = World(root, names_for(nm), grid, K, lo, hi)
     try:
-        nrec = rng.randint(1, 4)
+        nrec = rng.randint(1, 4) if big is None else 2
         conv = rng.random() < 0.5
         infos = []
         path = os.path.join(w.dir, 'out.fitinfo')
-        handmade = (sd % 2 == 1)       # records built through the public FitInfo constructor with plain arrays
+        handmade = (sd % 2 == 1) or big is not None       # records built through the public FitInfo constructor with plain arrays
         for i in range(nrec):
             info = w.fit(fw.make_source(rand_source(rng, nb, False), name='s%d' % i))
             if not conv:
@@ -85,7 +100,7 @@ def one_file(sd, root, step):
             if handmade:
                 from sedfitter.fit_info import FitInfo
                 h_ = FitInfo(source=info.source)
-                nf = rng.choice([0, 1, 3, 17, 60])
+                nf = rng.choice([0, 1, 3, 17, 60]) if (big is None or i > 0) else big
                 h_.av = np.linspace(0.5, 9.5, nf)
                 h_.sc = -np.linspace(0.25, 2.0, nf)
                 h_.chi2 = np.sort(rng.random() * 50.0 + np.arange(nf) * 1.25)
@@ -106,6 +121,10 @@ def one_file(sd, root, step):
         cpath = os.path.join(w.dir, 'cut.fitinfo')
         offs = list(range(0, len(data), step))
         bounds = set()
+        if big is not None:
+            offs = list(range(0, len(data), max(1, len(data) // 200))) + [rng.randrange(len(data)) for _ in range(100)]
+            for e_ in pickle_bounds(path):
+                bounds.update([e_ - 1, e_, e_ + 1])
         acc = 0
         for s in sizes:
             acc += s
@@ -153,6 +172,10 @@ def run(ctx):
     trs = []
     for part in pmap(lambda c: [one_file(sd, root, 1) for sd in c], seeds, chunks_per_proc=1):
         trs.extend(part)
+    # records of varying size: files whose first record holds thousands of fits, cut at spread offsets and at every pickle boundary
+    bigs = [(ctx.seed * 104729 + i, n_) for i, n_ in enumerate([2500, 12000] if q else [2500, 12000, 25001, 40000])]
+    for part in pmap(lambda c: [one_file(sd, root, 1, big=n_) for sd, n_ in c], bigs, chunks_per_proc=1):
+        trs.extend(part)
     ncuts = sum(len(t) - 1 for t in trs)
     classes = {}
     for t in trs:
@@ -170,4 +193,5 @@ def run(ctx):
                       {'file': trs[idx][0], 'events': [trs[idx][v[0] - 1] for v in viol[:5]], 'viol': viol[:20]})
     ctx.notes['exhaustive'] = True
     ctx.assumptions += ['every offset 0..len-1 of each real file is cut (exhaustive per file); files: 1-4 records, with/without predicted fluxes, n_fits 0..n_models',
+                        'plus files whose first record holds 2 500 / 12 000 (thorough: up to 40 000) fits, cut at ~300 spread offsets and at every pickle and record boundary +-1',
                         'to the letter of C19 the reader may fail early; it may not yield a record not wholly before the cut or differing from the written one']
